@@ -694,7 +694,7 @@ def to_ovld(x):
     """Return whether the argument is an ovld function/method."""
     x = getattr(x, "__ovld__", x)
     if inspect.isfunction(x):
-        return ovld(x, fresh=True)
+        return ovld(x, fresh=True).__ovld__
     else:
         return x if isinstance(x, Ovld) else None
 
@@ -719,24 +719,30 @@ class ovld_cls_dict(dict):
 
     def __init__(self, bases):
         self._bases = bases
+        self._extended = set()
 
     def __setitem__(self, attr, value):
-        prev = None
-        if attr in self:
-            prev = to_ovld(self[attr])
-        elif is_ovld(value) and getattr(value, "_extend_super", False):
+        prev = to_ovld(self[attr]) if attr in self else None
+        if (
+            is_ovld(value)
+            and getattr(value, "_extend_super", False)
+            and attr not in self._extended
+        ):
+            # The inherited definitions, then the ones this class body has
+            # given so far (extend_super may mark any of them)
+            self._extended.add(attr)
             mixins = []
             for base in self._bases:
                 if (candidate := getattr(base, attr, None)) is not None:
                     if mixin := to_ovld(candidate):
                         mixins.append(mixin)
+            if prev is not None:
+                mixins.append(prev)
             if mixins:
                 prev, *others = mixins
                 prev = prev.copy()
                 for other in others:
                     prev.add_mixins(other)
-        else:
-            prev = None
 
         if prev is not None:
             if is_ovld(value) and prev is not value:
@@ -813,6 +819,15 @@ def _find_overload(fn, **kwargs):
 
     if dispatch is None:
         dispatch = Ovld(**kwargs)
+    elif (
+        isinstance(fr.f_locals, ovld_cls_dict)
+        and inspect.isfunction(dispatch)
+        and not is_ovld(dispatch)
+    ):
+        # An earlier plain definition of the same name in the body of a
+        # class that merges definitions: it becomes the first method
+        dispatch = to_ovld(dispatch)
+        kwargs = {}
     elif not is_ovld(dispatch):  # pragma: no cover
         raise TypeError("@ovld requires Ovld instance")
     elif kwargs:  # pragma: no cover
